@@ -280,6 +280,7 @@ type Runtime struct {
 	byID    map[int]*WObj
 	mu      sync.Mutex
 	Log     []LogEntry
+	Seq     []string // resolver calls and thunk calls in the order they happen: "call|<path>|<Parent.field>", "force|<path>"
 	TypeLog []string
 	Mutate  bool // resolvers mutate the args map they receive (C20 aliasing probe)
 }
@@ -297,7 +298,7 @@ func NewRuntime(w *World, s *gq.SchemaDesc) *Runtime {
 
 func (rt *Runtime) Reset() {
 	rt.mu.Lock()
-	rt.Log, rt.TypeLog = nil, nil
+	rt.Log, rt.TypeLog, rt.Seq = nil, nil, nil
 	rt.mu.Unlock()
 }
 
@@ -333,19 +334,27 @@ func (rt *Runtime) plainTag(v interface{}) interface{} {
 		return out
 	case *int:
 		return M{"$go": "typednil"}
+	case func() (interface{}, error):
+		return M{"$thunk": nil} // as the model renders a deferred value inside a source (a wrong-kind list used as an object)
+	case func() int:
+		return M{"$go": "badfunc"}
 	}
 	return gq.ToWire(v)
 }
 
-// goValue turns a wire GoVal into the real Go value a resolver returns.
-func (rt *Runtime) goValue(v interface{}) interface{} {
+// seqPath renders a response path for the event sequence.
+func seqPath(path []interface{}) string { return hx.Canon(normPath(path)) }
+
+// goValue turns a wire GoVal into the real Go value a resolver returns. path = the response position the value is
+// returned for (a thunk logs it when it is called: the position of the deferred value).
+func (rt *Runtime) goValue(v interface{}, path []interface{}) interface{} {
 	switch x := v.(type) {
 	case nil:
 		return nil
 	case []interface{}:
 		out := make([]interface{}, len(x))
 		for i, e := range x {
-			out[i] = rt.goValue(e)
+			out[i] = rt.goValue(e, append(append([]interface{}{}, path...), i))
 		}
 		return out
 	case map[string]interface{}:
@@ -369,11 +378,17 @@ func (rt *Runtime) goValue(v interface{}) interface{} {
 		}
 		if t, ok := x["$thunk"]; ok {
 			tm := t.(map[string]interface{})
-			if inner, ok := tm["v"]; ok {
-				val := rt.goValue(inner)
-				return func() (interface{}, error) { return val, nil }
+			where := "force|" + seqPath(path)
+			note := func() {
+				rt.mu.Lock()
+				rt.Seq = append(rt.Seq, where)
+				rt.mu.Unlock()
 			}
-			return func() (interface{}, error) { return nil, errors.New("thunk failed") }
+			if inner, ok := tm["v"]; ok {
+				val := rt.goValue(inner, path)
+				return func() (interface{}, error) { note(); return val, nil }
+			}
+			return func() (interface{}, error) { note(); return nil, errors.New("thunk failed") }
 		}
 		return gq.FromWire(x)
 	}
@@ -424,6 +439,7 @@ func (rt *Runtime) Hooks() gq.Hooks {
 				e.InfoOK = checkInfo(p, typeName, fieldName)
 				rt.mu.Lock()
 				rt.Log = append(rt.Log, e)
+				rt.Seq = append(rt.Seq, "call|"+seqPath(e.Path)+"|"+e.ParentType+"."+fieldName)
 				rt.mu.Unlock()
 				if rt.Mutate {
 					mutateArgs(p.Args)
@@ -443,7 +459,7 @@ func (rt *Runtime) Hooks() gq.Hooks {
 						panic(42)
 					}
 				}
-				return rt.goValue(out["v"]), nil
+				return rt.goValue(out["v"], e.Path), nil
 			}
 		},
 		ResolveType: func(abstract string, objects map[string]*graphql.Object) graphql.ResolveTypeFn {
